@@ -97,6 +97,11 @@ pub fn harnesses() -> Vec<Harness> {
         h("H14-two-writers-one-key-rollover", 0, 1, vec![Put("a", 3)], vec![vec![Put("a", 7)], vec![Put("a", 8)], vec![Get("a")]]),
         // delete vs merge vs read
         h("H13-del-merge-get", 0, 1, vec![Put("a", 3), Put("a", 5)], vec![vec![Del("a")], vec![Merge], vec![Get("a")]]),
+        // two deleters of one present key: exactly one may report "was present"
+        h("H15-two-deleters", MFS_BIG, 1, vec![Put("a", 3)], vec![vec![Del("a")], vec![Del("a")]]),
+        h("H16-two-deleters-and-a-writer", 0, 1, vec![Put("a", 3)], vec![vec![Del("a")], vec![Del("a")], vec![Put("b", 4)]]),
+        // a put and a delete of the same absent key: the delete reports presence iff it comes second
+        h("H17-put-vs-del-absent", MFS_BIG, 1, vec![], vec![vec![Put("a", 3)], vec![Del("a")]]),
         // reader that first touches the key whose file the merge removes, then the merged copy
         h("H11-merge-vs-rereads", 0, 1, vec![Put("a", 3), Put("a", 5), Put("b", 4)], vec![vec![Merge], vec![Get("a"), Get("a")]]),
     ]);
